@@ -454,40 +454,74 @@ def check_scan(ctx, out, rule="C02.scan"):
                 n += 1
             else:
                 out.viol(rule, rule + "|diff-arg", ctx.where(main, t["span"]), "the line changes handed to parse_blocks do not come from the diff parser")
+    # the two mode decisions, as boolean functions of the atomic tests (engine/boolcond.py): however the
+    # condition is written (directly, through named flags, through helpers of main that were inlined)
+    from engine.boolcond import BoolCond, truth_table
+    bc = BoolCond(ctx, main)
+
+    def classify(a):
+        nm = a["name"]
+        e = a.get("expr")
+        txt = render(e, 600) if e is not None else nm
+        if a["kind"] == "call" and re.search(r"IsTerminal>?::is_terminal$", nm):
+            return "tty"
+        if a["kind"] == "call" and re.search(r"Result::<T, E>::(is_ok|is_err)$", nm) and "BLOCKWATCH_TERMINAL_MODE" in txt:
+            return "env"
+        if a["kind"] == "call" and re.search(r"GlobSet::is_empty$", nm):
+            return "empty"
+        if a["kind"] == "discr" and re.search(r"Try>::branch", txt):
+            return 0 in a.get("vals", ())         # the `?` did not return
+        if a["kind"] == "call" and re.search(r"Vec::<T, A>::is_empty$|<impl \[T\]>::is_empty$", nm):
+            return "raw-empty"
+        return None
+
+    def decide(site_bb, spec, what, key, where):
+        f = bc.site(site_bb)
+        try:
+            table, names, free = truth_table(bc, f, classify)
+        except ValueError as ex:
+            out.viol(rule, rule + "|" + key, where, "the condition of %s cannot be enumerated (%s)" % (what, ex))
+            return False
+        if "raw-empty" in names:
+            out.viol(rule, rule + "|default-glob-source", where,
+                     "the `no globs given` test is made on a raw argument list, not on the compiled set returned by `Args::globs()` (top-level and `list` globs merged): globs given to the `list` subcommand are replaced by `**`")
+            return False
+        bad = []
+        for val, res in table.items():
+            v = dict(val)
+            want = spec(v)
+            if res != {want}:
+                bad.append((v, sorted(res), want))
+        if bad:
+            v, res, want = bad[0]
+            dep = ("; it also depends on %s" % [a["name"][:60] for a in free][:3]) if free and len(res) > 1 else ""
+            out.viol(rule, rule + "|" + key, where,
+                     "%s happens %s when %s; expected %s%s" % (what, "on some runs and not on others" if len(res) > 1 else ("" if res[0] else "NOT"),
+                                                               ", ".join("%s=%s" % kv for kv in sorted(v.items())), "it to happen" if want else "it not to happen", dep))
+            return False
+        return True
+
+    interactive = lambda v: v.get("tty", False) or v.get("env", False)
     for bi, t in main.calls():
         if callee_matches(t, r"globset::Glob::new$") and util.const_val(ctx, main, t["args"][0]) == "**":
-            gs = util.guard_texts(ctx, main, bi)
-            a = False
+            where = ctx.where(main, t["span"])
+            ok = decide(bi, lambda v: interactive(v) and v.get("empty", False), "installing the default `**` glob", "default-glob", where)
+            # the tested set is the merged one (top-level and `list` globs): it comes from Args::globs()
             for br, vals, ge in util.guards(ctx, main, bi):
-                if ge[0] == "call" and re.search(r"GlobSet::is_empty$", ge[1]) and 0 not in vals:
-                    # the tested set is the merged one (top-level and `list` globs): it comes from Args::globs()
+                if ge[0] == "call" and re.search(r"GlobSet::is_empty$", ge[1]):
                     ct = main.blocks[ge[3]]["term"]
                     gl = ctx.prov.read_operand(main, ct["args"][0])
-                    if P.has_call(gl, r"flags::Args::globs$"):
-                        a = True
-                    else:
+                    if not P.has_call(gl, r"flags::Args::globs$"):
+                        ok = False
                         out.viol(rule, rule + "|default-glob-source", ctx.where(main, ct["span"]),
                                  "the `no globs given` test is made on a value that does not come from `Args::globs()` (the merged top-level and `list` globs): globs given to a subcommand are replaced by `**`")
-                        a = True
-                elif ge[0] == "call" and re.search(r"::is_empty$", ge[1]) and 0 not in vals:
-                    out.viol(rule, rule + "|default-glob-source", ctx.where(main, t["span"]),
-                             "the `no globs given` test is `%s`, not a test of the compiled set returned by `Args::globs()` (top-level and `list` globs merged): globs given to the `list` subcommand are replaced by `**`" % render(ge, 120))
-                    a = True
-            term = [g for g in gs if "is_terminal" in g[2] or "is_terminal" in render(ctx.expr(main).local(main.local_by_name("is_terminal")[0]) if main.local_by_name("is_terminal") else ("const", ""), 400)]
-            b2 = any(("is_terminal" in g[2]) and "0" not in g[1] for g in gs)
-            if a and b2:
+            if ok:
                 n += 1
-            else:
-                out.viol(rule, rule + "|default-glob", ctx.where(main, t["span"]),
-                         "the default `**` glob is installed under [%s]; expected: no positional glob AND interactive (no diff on stdin)" % "; ".join("%s=%s" % (g[2][:60], g[1]) for g in gs[:4]))
     # the diff is read iff not interactive
     for bi, t in main.calls():
         if callee_matches(t, r"diff_parser::line_changes_from_diff$"):
-            gs = util.guard_texts(ctx, main, bi)
-            if any("is_terminal" in g[2] and g[1] == ["0"] for g in gs):
+            if decide(bi, lambda v: not interactive(v), "reading the diff from stdin", "diff-read", ctx.where(main, t["span"])):
                 n += 1
-            else:
-                out.viol(rule, rule + "|diff-read", ctx.where(main, t["span"]), "the diff is not read exactly when stdin is not a terminal")
     out.inst(rule, n, 4, ["scan := !globs.is_empty(); '**' iff globs empty && interactive; diff read iff !interactive"], exhaustive=True)
 
 
